@@ -51,6 +51,11 @@ func c17Gen(rt *rapid.T) c17Case {
 	compound := true
 	co := kit.CorpusOpts{MaxRepos: 4, MaxDocs: 4, MaxTokens: 10, Tombstones: true, Skips: true, ForceCompound: &compound}
 	c := c17Case{Corpus: kit.GenCorpus(g, co)}
+	if len(c.Corpus.Repos) >= 2 && g.Bool(30, "samename") {
+		// a repository deleted and re-created upstream: same name, new id
+		i := g.U(len(c.Corpus.Repos)-1, "samenamei")
+		c.Corpus.Repos[i+1].Name = c.Corpus.Repos[i].Name
+	}
 	// The history starts from "nothing tombstoned" (that state is the
 	// baseline); the generated Tombstone flags become its first operations.
 	for i := range c.Corpus.Repos {
@@ -99,10 +104,16 @@ func c17Gen(rt *rapid.T) c17Case {
 
 // c17Obs is what a freshly opened shard shows.
 type c17Obs struct {
-	Results [][]string // per query: sorted result keys (repo \x00 name \x00 checksum)
-	Listed  []string   // repository names from List (Repos field)
-	IDs     []string   // repository ids from List (ReposMap field)
-	Alive   []string   // repository names from ReadMetadataPathAlive
+	Results [][]string // per query: sorted result keys (repo id \x00 repo \x00 name \x00 checksum)
+	QListed [][]string // per query: repository ids from List(query) (Repos field)
+	QIDs    [][]string // per query: repository ids from List(query) (ReposMap field)
+	Listed  []string   // repository ids from List(true) (Repos field)
+	IDs     []string   // repository ids from List(true) (ReposMap field)
+	Alive   []string   // repository ids from ReadMetadataPathAlive
+	// only in expected observations (c17Expect): how List(query) is judged
+	qMust [][]string // ids that must be listed (live repositories with an expected result)
+	qDead []string   // ids that must not be listed
+	exact bool       // nothing is tombstoned: List(query) must equal the baseline
 }
 
 func (o *c17Obs) key() string {
@@ -132,6 +143,8 @@ func c17Observe(path string, qs []query.Q) (obs *c17Obs, err error) {
 		for _, q := range qs {
 			if q == nil {
 				obs.Results = append(obs.Results, nil)
+				obs.QListed = append(obs.QListed, nil)
+				obs.QIDs = append(obs.QIDs, nil)
 				continue
 			}
 			res, err := s.Search(ctx, q, &zoekt.SearchOptions{})
@@ -140,10 +153,30 @@ func c17Observe(path string, qs []query.Q) (obs *c17Obs, err error) {
 			}
 			keys := []string{}
 			for i := range res.Files {
-				keys = append(keys, kit.Key(res.Files[i].Repository, res.Files[i].FileName, res.Files[i].Checksum))
+				keys = append(keys, fmt.Sprintf("%05d", res.Files[i].RepositoryID)+"\x00"+kit.Key(res.Files[i].Repository, res.Files[i].FileName, res.Files[i].Checksum))
 			}
 			sort.Strings(keys)
 			obs.Results = append(obs.Results, keys)
+			// listings with the query itself
+			ql, qi := []string{}, []string{}
+			if rl, err := s.List(ctx, q, nil); err == nil {
+				for _, e := range rl.Repos {
+					ql = append(ql, fmt.Sprintf("%05d", e.Repository.ID))
+				}
+			} else {
+				ql = append(ql, "error")
+			}
+			if rl, err := s.List(ctx, q, &zoekt.ListOptions{Field: zoekt.RepoListFieldReposMap}); err == nil {
+				for id := range rl.ReposMap {
+					qi = append(qi, fmt.Sprintf("%05d", id))
+				}
+			} else {
+				qi = append(qi, "error")
+			}
+			sort.Strings(ql)
+			sort.Strings(qi)
+			obs.QListed = append(obs.QListed, ql)
+			obs.QIDs = append(obs.QIDs, qi)
 		}
 		rl, err := s.List(ctx, &query.Const{Value: true}, nil)
 		if err != nil {
@@ -151,7 +184,7 @@ func c17Observe(path string, qs []query.Q) (obs *c17Obs, err error) {
 		}
 		obs.Listed = []string{}
 		for _, e := range rl.Repos {
-			obs.Listed = append(obs.Listed, e.Repository.Name)
+			obs.Listed = append(obs.Listed, fmt.Sprintf("%05d", e.Repository.ID))
 		}
 		sort.Strings(obs.Listed)
 		rl, err = s.List(ctx, &query.Const{Value: true}, &zoekt.ListOptions{Field: zoekt.RepoListFieldReposMap})
@@ -169,7 +202,7 @@ func c17Observe(path string, qs []query.Q) (obs *c17Obs, err error) {
 		}
 		obs.Alive = []string{}
 		for _, r := range repos {
-			obs.Alive = append(obs.Alive, r.Name)
+			obs.Alive = append(obs.Alive, fmt.Sprintf("%05d", r.ID))
 		}
 		sort.Strings(obs.Alive)
 		// Under per-repository and per-shard match limits the search walks the
@@ -190,7 +223,7 @@ func c17Observe(path string, qs []query.Q) (obs *c17Obs, err error) {
 					return fmt.Errorf("search %s with %+v: %w", q, o, err)
 				}
 				for i := range res.Files {
-					if !alive[res.Files[i].Repository] {
+					if !alive[fmt.Sprintf("%05d", res.Files[i].RepositoryID)] {
 						return kit.Fail("tombstoned-visible-under-limit", "query %s with ShardRepoMaxMatchCount=%d ShardMaxMatchCount=%d returns %s/%s although the repository is tombstoned", q, o.ShardRepoMaxMatchCount, o.ShardMaxMatchCount, res.Files[i].Repository, res.Files[i].FileName)
 					}
 				}
@@ -204,37 +237,57 @@ func c17Observe(path string, qs []query.Q) (obs *c17Obs, err error) {
 // c17Expect derives the expected observation from the baseline and the set of
 // tombstoned repository ids.
 func c17Expect(c *c17Case, base *c17Obs, dead map[uint32]bool) *c17Obs {
-	deadName := map[string]bool{}
 	deadID := map[string]bool{}
 	for i := range c.Corpus.Repos {
 		if dead[c.Corpus.Repos[i].ID] {
-			deadName[c.Corpus.Repos[i].Name] = true
 			deadID[fmt.Sprintf("%05d", c.Corpus.Repos[i].ID)] = true
 		}
 	}
-	filter := func(in []string, dead map[string]bool, byRepo bool) []string {
+	filter := func(in []string, byRepo bool) []string {
 		if in == nil {
 			return nil
 		}
 		out := []string{}
 		for _, k := range in {
-			name := k
+			id := k
 			if byRepo {
-				name = k[:strings.IndexByte(k, 0)]
+				id = k[:strings.IndexByte(k, 0)]
 			}
-			if !dead[name] {
+			if !deadID[id] {
 				out = append(out, k)
 			}
 		}
 		return out
 	}
 	e := &c17Obs{}
-	for _, r := range base.Results {
-		e.Results = append(e.Results, filter(r, deadName, true))
+	for i, r := range base.Results {
+		e.Results = append(e.Results, filter(r, true))
+		// List(query): indexData.List simplifies the query against the live
+		// repositories of the shard (so tombstoning can turn a repository
+		// filter into TRUE, which lists every live repository) and otherwise
+		// lists the live repositories whose *name* is the name of a repository
+		// with a result. Sound expectations that do not depend on that: the
+		// baseline exactly when nothing is tombstoned; otherwise every live
+		// repository with an expected result is listed and no tombstoned one.
+		e.QListed = append(e.QListed, base.QListed[i])
+		e.QIDs = append(e.QIDs, base.QIDs[i])
+		must := []string{}
+		seen := map[string]bool{}
+		for _, k := range e.Results[i] {
+			if id := k[:strings.IndexByte(k, 0)]; !seen[id] {
+				seen[id] = true
+				must = append(must, id)
+			}
+		}
+		e.qMust = append(e.qMust, must)
 	}
-	e.Listed = filter(base.Listed, deadName, false)
-	e.Alive = filter(base.Alive, deadName, false)
-	e.IDs = filter(base.IDs, deadID, false)
+	for id := range deadID {
+		e.qDead = append(e.qDead, id)
+	}
+	e.exact = len(deadID) == 0
+	e.Listed = filter(base.Listed, false)
+	e.Alive = filter(base.Alive, false)
+	e.IDs = filter(base.IDs, false)
 	return e
 }
 
@@ -244,6 +297,36 @@ func c17Diff(qs []query.Q, want, got *c17Obs) string {
 	for i := range want.Results {
 		if strings.Join(want.Results[i], "\x01") != strings.Join(got.Results[i], "\x01") {
 			out = append(out, fmt.Sprintf("query %s: want %s got %s", qs[i], show(want.Results[i]), show(got.Results[i])))
+		}
+		for _, l := range []struct {
+			what      string
+			want, got []string
+		}{{"List(%s)", want.QListed[i], got.QListed[i]}, {"List(%s, ReposMap)", want.QIDs[i], got.QIDs[i]}} {
+			what := fmt.Sprintf(l.what, qs[i])
+			if want.qMust == nil || want.exact {
+				// an observation compared with an observation, or nothing tombstoned
+				if strings.Join(l.want, "\x01") != strings.Join(l.got, "\x01") {
+					out = append(out, fmt.Sprintf("%s: want %q got %q", what, l.want, l.got))
+				}
+				continue
+			}
+			have := map[string]bool{}
+			for _, id := range l.got {
+				have[id] = true
+			}
+			for _, id := range want.qDead {
+				if have[id] {
+					out = append(out, fmt.Sprintf("%s lists the tombstoned repository %s: %q", what, id, l.got))
+				}
+			}
+			if len(l.got) == 1 && l.got[0] == "error" {
+				continue
+			}
+			for _, id := range want.qMust[i] {
+				if !have[id] {
+					out = append(out, fmt.Sprintf("%s does not list repository %s, which has a result for the query: %q", what, id, l.got))
+				}
+			}
 		}
 	}
 	if strings.Join(want.Listed, "\x01") != strings.Join(got.Listed, "\x01") {
@@ -318,7 +401,7 @@ func runC17(rec *kit.Recorder, active map[string]bool, c c17Case) error {
 	}
 	got := map[string]bool{}
 	for _, k := range base.Results[0] {
-		got[k] = true
+		got[k[strings.IndexByte(k, 0)+1:]] = true // without the repository id
 	}
 	for k := range want {
 		if !got[k] {
@@ -474,7 +557,7 @@ func runC17(rec *kit.Recorder, active map[string]bool, c c17Case) error {
 			if isMember && op.Kind == "set" {
 				wasSet[op.ID] = true
 			}
-			if isMember && op.Kind == "unset" && changes && wasSet[op.ID] && hit[member[op.ID].Name] {
+			if isMember && op.Kind == "unset" && changes && wasSet[op.ID] && hit[fmt.Sprintf("%05d", op.ID)] {
 				// set -> reload -> unset of a repository a generated query matches,
 				// and the baseline came back
 				nt = true
